@@ -167,6 +167,10 @@ func (t Term) Build() ast.Type {
 			out = ast.NewScalar(ast.KindBool, ast.Value(true))
 		case "float":
 			out = ast.NewScalar(ast.KindFloat64, ast.Value(1.5))
+		case "digits": // string constants made of digits only (member names are derived from such values)
+			out = ast.NewScalar(ast.KindString, ast.Value("5"))
+		case "digits2":
+			out = ast.NewScalar(ast.KindString, ast.Value("10"))
 		default:
 			panic("irgen: const flavour " + t.A)
 		}
@@ -182,6 +186,8 @@ func (t Term) Build() ast.Type {
 			out = ast.NewEnum([]ast.EnumValue{{Type: ast.String(), Name: "a-b c", Value: "a-b c"}, {Type: ast.String(), Name: "", Value: ""}})
 		case "space":
 			out = ast.NewEnum([]ast.EnumValue{{Type: ast.String(), Name: " a ", Value: " a "}, {Type: ast.String(), Name: "b", Value: "b "}})
+		case "strnum": // STRING enum whose member names are purely numeric (names derived from digit-only string values)
+			out = ast.NewEnum([]ast.EnumValue{{Type: ast.String(), Name: "2", Value: "2"}, {Type: ast.String(), Name: "3", Value: "3"}, {Type: ast.String(), Name: "-4", Value: "-4"}})
 		case "plus": // explicitly signed numeric member names
 			out = ast.NewEnum([]ast.EnumValue{{Type: ast.NewScalar(ast.KindInt64), Name: "+1", Value: int64(1)}, {Type: ast.NewScalar(ast.KindInt64), Name: "p", Value: int64(2)}})
 		case "noname": // a member without a name whose value is not the empty string
@@ -270,7 +276,7 @@ func (t Term) scalarDefault() any {
 			return int64(1)
 		}
 	case "enum":
-		if t.A == "str" || t.A == "odd" || t.A == "space" || t.A == "noname" {
+		if t.A == "str" || t.A == "odd" || t.A == "space" || t.A == "noname" || t.A == "strnum" {
 			return "b"
 		}
 		return int64(2)
